@@ -126,7 +126,7 @@ struct C02 : Property {
     run_timeout_s = 20;      // a run takes milliseconds; one that does not come back is a hang
     quick_budget_s = 35;
     thorough_budget_s = 700;
-    run_timeout_s = 60;
+
   }
 
   json generate(uint64_t base, uint64_t index, bool) override {
